@@ -245,12 +245,36 @@ def poll_thread_startup(ctx):
             ctx.check(ok, f'{pt.qualname}:configured writes for every module of the thread', c, f'loop over `{mods_param}` (all modules handed to the thread)',
                       f'writeInitParams is called in a loop over `{src(loop.iter) if loop is not None else "?"}`, not over all modules of the thread: a module '
                       'with enablePoll=False, for which the thread was started only because of its configured writes, never gets them written', pt)
+    ctx.check(cfg.all_paths_pass([cfg.entry], [cfg.exit], wi, exc=False), f'{pt.qualname}:configured writes on every way through the thread', pt.node,
+              'no normal exit of the poll thread without writeInitParams',
+              'the thread can end (e.g. "nothing to poll") before the configured values were written: a module that is in the thread only because of its configured '
+              'writes (enablePoll = False) never gets them handed to its write methods, the node reports "all modules started" all the same', pt)
     ctx.check(all(cfg.dominates(wi, h) for h in head), f'{pt.qualname}:writes before steady loop', pt.node,
               'writeInitParams dominates the steady loop', 'the steady loop can start before configured values were written', pt)
     # started_callback exactly once: path-sensitive None-ness typestate
     cbname = pt.node.args.args[-1].arg
     calls = {i for c in calls_in(pt.node) if isinstance(c.func, ast.Name) and c.func.id == cbname for i in cfg.node_of(c)}
     if not calls:
+        # the invocation may be wrapped in a local closure that guards itself: `def done(): nonlocal cb; if cb: cb(); cb = None` -
+        # calling it any number of times invokes the callback once; it has to be called on every way to the steady loop / the exit
+        wrappers = []
+        for lst in pt.nested.values():
+            for nf in lst:
+                inner = [c for c in calls_in(nf.node) if isinstance(c.func, ast.Name) and c.func.id == cbname]
+                ncfg = CFG(nf.node, m, nf.module)
+                guarded = inner and all(set(ncfg.node_of(c)) <= sides_with_fact(ncfg, lambda a, tv: tv and isinstance(a, ast.Name) and a.id == cbname) for c in inner)
+                clears = [i for x in body_walk(nf.node) if isinstance(x, ast.Assign) and any(isinstance(t, ast.Name) and t.id == cbname for t in x.targets)
+                          and isinstance(x.value, ast.Constant) and x.value.value is None for i in ncfg.node_of(x)]
+                nonloc = any(isinstance(x, ast.Nonlocal) and cbname in x.names for x in body_walk(nf.node))
+                if guarded and nonloc and clears and all(ncfg.all_paths_pass(ncfg.node_of(c), [ncfg.exit], clears, exc=False) for c in inner):
+                    wrappers.append(nf.name)
+        wcalls = {i for c in calls_in(pt.node) if isinstance(c.func, ast.Name) and c.func.id in wrappers for i in cfg.node_of(c)}
+        if wrappers and wcalls:
+            rets = [i for n in body_walk(pt.node) if isinstance(n, ast.Return) and not any(a is steady[0] for a in ancestors(n)) for i in cfg.ids(n)]
+            ok = cfg.all_paths_pass([cfg.entry], list(head) + rets, wcalls, exc=False)
+            ctx.check(ok, f'{pt.qualname}:start callback exactly once', pt.node, f'the self-guarding closure `{wrappers[0]}` is called on every way to the steady loop',
+                      f'a path reaches the steady loop (or the exit without polling) without calling `{wrappers[0]}`: the server waits for the start time-out', pt)
+            return
         ctx.bad(f'{pt.qualname}:start callback exactly once', pt.node, 'the start callback is never invoked: the server waits for the start time-out', pt)
         return
 
